@@ -117,6 +117,32 @@ func OracleC12(tr *Trace) Verdict {
 					Msg: fmt.Sprintf("%s: demoted by the health mechanism at %v after only %d consecutive unhealthy result(s) in the term that began at %v (threshold %d)", who, c.ToT, n, c.FromT, th)})
 			}
 		}
+		// term by term: a term that the health mechanism ended must itself have seen the threshold - the
+		// unhealthy results that immediately precede its end, counted among the checks that began in that
+		// very term (a check begun in the previous term and answered in this one is not a tick of this term)
+		for _, c := range myClaims {
+			if c.ToSeq < 0 || c.ToT >= tr.End || ci.CauseOf(c.Down) != CauseHealth {
+				continue
+			}
+			run := 0
+			for _, h := range hs {
+				if h.Seq > c.ToSeq {
+					break
+				}
+				if claimAt(h.Seq) != c {
+					continue
+				}
+				if h.Result {
+					run = 0
+				} else {
+					run++
+				}
+			}
+			if run < th {
+				v.Viols = append(v.Viols, Viol{At: c.ToT, Sig: fmt.Sprintf("C12 health-demotion-below-threshold after=%d threshold=%d", run, th),
+					Msg: fmt.Sprintf("%s: the term that began at %v was ended by the health mechanism at %v although only %d consecutive unhealthy result(s) of checks begun in that term precede it (threshold %d)", who, c.FromT, c.ToT, run, th)})
+			}
+		}
 		if len(termsWithUnhealthy) >= 2 {
 			multiTerm++
 		}
